@@ -15,6 +15,10 @@ import (
 // Returns false if num cannot be parsed into an int64 or float64.
 func castJSONNumber(num json.Number, intCallback intCallback, floatCallback floatCallback) (any, bool) {
 	if integer, err := num.Int64(); err == nil {
+		if integer == math.MinInt64 {
+			// Negation would overflow; use the double result.
+			return floatCallback(float64(integer)), true
+		}
 		return intCallback(integer), true
 	} else if float, err := num.Float64(); err == nil {
 		return floatCallback(float), true
